@@ -100,29 +100,3 @@ Definition spec_req (pid : Z) (r : req) (k : kernel) : option (outcome resv * ke
       end
     end
   end.
-
-(* ------------------------------------------------ the input class of the known findings *)
-(* The process was never narrowed and its eligible CPUs are one contiguous range
-   a-b with a < b: the only situation in which the first "a-b" token of
-   Cpus_allowed_list is the eligible set. *)
-Definition contiguousb (l : list Z) : bool :=
-  match l with
-  | [] => false
-  | a :: _ => beqb l (zrange a (a + Z.of_nat (length l)))
-  end.
-Definition plain_eligb (p : proc) : bool :=
-  beqb (p_mask p) (p_elig p) && contiguousb (p_elig p) && (2 <=? length (p_elig p))%nat.
-
-(* requests whose answer goes through _get_eligible_cpus *)
-Definition uses_eligible (p : proc) (r : req) : bool :=
-  match r with
-  | Affinity (Some []) => true
-  | Affinity (Some cpus) => negb (all_in cpus (p_elig p))
-  | _ => false
-  end.
-(* requests carrying a CPU id that does not fit a C long *)
-Definition huge_cpu (r : req) : bool :=
-  match r with
-  | Affinity (Some cpus) => existsb (fun v => negb (fits_long v)) cpus
-  | _ => false
-  end.
